@@ -35,6 +35,7 @@ type c01Meta struct {
 	RefAnswers int   `json:"ref_answers"`
 	RefSteps   int64 `json:"ref_steps"`
 	RefOOB     bool  `json:"ref_oob"`
+	RefBudget  int64 `json:"ref_budget"`
 }
 
 func (c *c01) Generate(cx *Ctx, chunk int) []*Item {
@@ -83,17 +84,17 @@ func prepareDiffItems(metas []*DiffMeta, budget int64, opt ref.Options) []*Item 
 			defer wg.Done()
 			defer func() { <-sem }()
 			b := budget
-			if d.Family != "generated" && d.Family != "" {
+			if d.Family == "classic" {
 				b = 400000
 			}
 			o, err := d.refRun(b, opt)
 			if err != nil || o.M.Unsupported != "" {
 				return
 			}
-			if o.OutOfBudget && len(o.Answers) == 0 {
+			if o.OutOfBudget && (len(o.Answers) == 0 || d.Unordered || d.Family == "history") {
 				return // nothing to compare
 			}
-			m := c01Meta{DiffMeta: *d, RefAnswers: len(o.Answers), RefSteps: o.M.Steps, RefOOB: o.OutOfBudget}
+			m := c01Meta{DiffMeta: *d, RefAnswers: len(o.Answers), RefSteps: o.M.Steps, RefOOB: o.OutOfBudget, RefBudget: b}
 			it := d.item()
 			st := &it.Cases[0].Steps[0]
 			if o.OutOfBudget {
@@ -119,11 +120,7 @@ func (c *c01) Judge(cx *Ctx, it *Item, outs []*run.Outcome) Verdict {
 	if err := decodeMeta(it, &m); err != nil {
 		return Verdict{Status: Inconclusive, Msg: err.Error()}
 	}
-	b := int64(refBudgetGenerated)
-	if m.Family != "generated" {
-		b = 400000
-	}
-	o, err := m.refRun(b, ref.Options{})
+	o, err := m.refRun(m.RefBudget, ref.Options{})
 	if err != nil {
 		return Verdict{Status: Inconclusive, Msg: err.Error()}
 	}
